@@ -431,14 +431,20 @@ class WorkerPool:
             )
             total_idle = sum(len(d) for d in self._idle.values())
 
-            # If at capacity, evict the globally oldest idle worker
-            if total_idle >= self._max_idle:
-                evicted = self._evict_oldest_locked()
+            if self._max_idle == 0:
+                # No idle worker may be kept: there is nothing to evict in
+                # this one's favour, so it is the one that goes.
+                self._evictions_max += 1
+                evicted = transport
+            else:
+                # If at capacity, evict the globally oldest idle worker
+                if total_idle >= self._max_idle:
+                    evicted = self._evict_oldest_locked()
 
-            dq = self._idle.setdefault(key, deque())
-            dq.append(_IdleEntry(key=key, transport=transport, returned_at=time.monotonic()))
-            self._returns += 1
-            _logger.debug("Returned worker to pool: pid=%d", transport.proc.pid)
+                dq = self._idle.setdefault(key, deque())
+                dq.append(_IdleEntry(key=key, transport=transport, returned_at=time.monotonic()))
+                self._returns += 1
+                _logger.debug("Returned worker to pool: pid=%d", transport.proc.pid)
 
         # Close evicted transport outside the lock
         if evicted is not None:
